@@ -316,7 +316,7 @@ static mx_ep *seal_engine(mx_ep *T, mx_ep *P)
 /* ---------------------------------------------------------------- one case --- */
 typedef struct {
     mx_conn *k; mx_ep *T, *P; const lane_t *L; int dtls, flags, dt;
-    vf_rng rng; int chunked;
+    vf_rng rng; int chunked, cs;
     int stop;                /* the application would stop reading: error, close, fatal alert */
     int fatalAlert, sawClose;
     long outbytes; int firstOutType, firstAlert;
@@ -428,8 +428,17 @@ static void deliver_stream(run_t *r, const unsigned char *d, int n)
 }
 static void deliver_raw(run_t *r, const unsigned char *d, int n)
 {
-    if (!r->dtls) { deliver_stream(r, d, n); return; }
     int off = 0;
+    if (!r->dtls) {
+        /* chunk seed 0: one read per record (the way an honest peer's flights arrive, so that seeds made of
+           recorded flights stay causal); 255: everything in one read; otherwise seed-chosen pieces */
+        if (r->cs == 0) {
+            mx_rec rec;
+            while (off < n && !r->stop && mx_rec_at(d, n, off, 0, &rec)) { c08_read(r, d + off, rec.hdr + rec.len); off += rec.hdr + rec.len; }
+        }
+        deliver_stream(r, d + off, n - off);
+        return;
+    }
     while (off < n && !r->stop) {
         int c;
         if (r->flags & F_DGRAMARB) { c = r->chunked ? 1 + (int) vf_below(&r->rng, vf_below(&r->rng, 2) ? 1600 : 120) : n - off; }
@@ -497,7 +506,7 @@ static void run_case(const uint8_t *d, size_t n)
     run_t r; memset(&r, 0, sizeof r);
     r.k = &k; r.L = L; r.dtls = L->dtls; r.flags = flags; r.dt = L->role == MX_SERVER ? 0 : 1;
     r.T = L->role == MX_SERVER ? &k.s : &k.c; r.P = L->role == MX_SERVER ? &k.c : &k.s;
-    r.chunked = cs != 0; vf_rng_init(&r.rng, cs, 0xc08); r.firstOutType = -1; r.firstAlert = -1;
+    r.cs = cs; r.chunked = cs != 0 && cs != 255; vf_rng_init(&r.rng, cs, 0xc08); r.firstOutType = -1; r.firstAlert = -1;
     ssl_t *t = r.T->ssl;
     int hs0 = t->hsState, done0 = r.T->hsDone, app0 = r.T->nApp, sec0 = (t->flags & SSL_FLAGS_READ_SECURE) ? 1 : 0;
     g_hs_hist[hs0 & 63]++;
@@ -509,7 +518,21 @@ static void run_case(const uint8_t *d, size_t n)
     if (!(flags & F_CONTINUE)) k.qoff[r.dt] = k.qlen[r.dt];
     if (!r.stop && pn > 0) { if (flags & F_SEALED) deliver_sealed(&r, pl, pn); else deliver_raw(&r, pl, pn); }
     if (!r.T->dead && !r.sawClose) c08_drain(&r);
-    int hs1 = t->hsState, dead1 = r.T->dead, rc1 = r.T->lastrc, err1 = t->err;
+    int dead1 = r.T->dead;
+    /* outcome class of the payload (before the honest epilogue) */
+    char cls[48];
+    {
+        int hs1 = t->hsState, rc1 = r.T->lastrc;
+        if (dead1) snprintf(cls, sizeof cls, "E%d", rc1);
+        else if (r.fatalAlert) snprintf(cls, sizeof cls, "Ain%d", r.T->alertDesc);
+        else if (r.sawClose) snprintf(cls, sizeof cls, "close%d", r.firstAlert);
+        else if (!done0 && (r.T->hsDone || matrixSslHandshakeIsComplete(t))) snprintf(cls, sizeof cls, "done");
+        else if (r.T->nApp > app0) snprintf(cls, sizeof cls, "app");
+        else if (hs1 != hs0) snprintf(cls, sizeof cls, "hs%d", hs1);
+        else if (r.firstAlert >= 0) snprintf(cls, sizeof cls, "Aout%d", r.firstAlert);
+        else if (r.outbytes) snprintf(cls, sizeof cls, "out%d", r.firstOutType);
+        else snprintf(cls, sizeof cls, "idle");
+    }
     if (r.dtls && (flags & F_TIMEOUT) && !r.T->dead && !r.sawClose) {
         /* retransmission timer: the peer stayed silent, the application asks for the flight again */
         r.T->lastrc = MATRIXSSL_REQUEST_SEND; c08_drain(&r);
@@ -535,19 +558,10 @@ static void run_case(const uint8_t *d, size_t n)
             if (rc >= 0) { r.T->lastrc = 0; c08_drain(&r); }
         }
     }
-    /* outcome class */
     {
-        char cls[48];
-        if (dead1) snprintf(cls, sizeof cls, "E%d", rc1);
-        else if (r.fatalAlert) snprintf(cls, sizeof cls, "Ain%d", r.T->alertDesc);
-        else if (r.sawClose) snprintf(cls, sizeof cls, "close%d", err1);
-        else if (!done0 && (r.T->hsDone || matrixSslHandshakeIsComplete(t))) snprintf(cls, sizeof cls, "done");
-        else if (r.T->nApp > app0) snprintf(cls, sizeof cls, "app");
-        else if (hs1 != hs0) snprintf(cls, sizeof cls, "hs%d", hs1);
-        else if (r.firstAlert >= 0) snprintf(cls, sizeof cls, "Aout%d", r.firstAlert);
-        else if (r.outbytes) snprintf(cls, sizeof cls, "out%d", r.firstOutType);
-        else snprintf(cls, sizeof cls, "idle");
-        snprintf(g_outcome, sizeof g_outcome, "%s %d %s hs%d%s %s", L->scn->name, cut, (flags & F_SEALED) ? "sealed" : "raw", hs0, sec0 ? "s" : "p", cls);
+        const char *ep = "";
+        if ((flags & F_CONTINUE) && !dead1) ep = r.T->dead ? "+dead" : (!done0 && matrixSslHandshakeIsComplete(t)) ? "+done" : "+cont";
+        snprintf(g_outcome, sizeof g_outcome, "%s %d %s hs%d%s %s%s", L->scn->name, cut, (flags & F_SEALED) ? "sealed" : "raw", hs0, sec0 ? "s" : "p", cls, ep);
         if (tuple_new(vf_hash(g_outcome, strlen(g_outcome))) && g_tuplefd >= 0) { char ln[160]; int m = snprintf(ln, sizeof ln, "%s %s\n", g_t->name, g_outcome); (void) !write(g_tuplefd, ln, m); }
     }
     if (r.T->dead) g_dead++;
